@@ -433,8 +433,11 @@ impl Profile {
     }
 }
 
+/// Root directory names; deliberately some are string prefixes of others (r0, r0x, r0xy).
+pub const ROOT_NAMES: [&str; 4] = ["r0", "r0x", "r1", "r0xy"];
+
 fn root_name(i: usize) -> B {
-    B::s(&format!("r{}", i))
+    B::s(ROOT_NAMES[i % ROOT_NAMES.len()])
 }
 
 /// A path `r<k>/<dirs…>/<name>`; files get a numeric suffix to reduce clashes.
